@@ -153,9 +153,18 @@ func runC01(c *runCtx) error {
 	g := newEgen(r)
 	g.coreOnly = true
 	katoms := keyAtoms([]string{"", "a", "ab", "b", "c"}, false)
+	// regular expressions are outside the Coq twin (oracle): these predicates are judged on the
+	// Go side only (every drain against the row-at-a-time filter over the whole store)
+	reAtoms := []string{"key ~= '^a'", "value ~= '^[0-9]+$'", "key ~= value", "value ~= key", "'ab' ~= value",
+		"key ~= '.b'", "value ~= 'a|b'", "upper(key) ~= '^A'", "key ~= lower(value)"}
 	for i := 0; i < n; i++ {
 		var pred string
-		switch r.intn(5) {
+		switch r.intn(6) {
+		case 5:
+			pred = pick(r, reAtoms)
+			if r.chance(1, 2) {
+				pred = fmt.Sprintf("(%s) %s (%s)", pred, pick(r, []string{"&", "|"}), pick(r, katoms))
+			}
 		case 0:
 			pred = pick(r, katoms)
 		case 1:
